@@ -14,7 +14,8 @@
 //   relc19l <perm> <run>    CSV rows = the scan re-stated here over what the library returns in-process
 // <perm>  = file indices in command-line order, e.g. 2013 (an index may repeat: same file given twice)
 // <run>   = <file>/<file>/...      <file> = run,t0,t1,ext:<ev>;<ev>;...   (ext `-` = no extension)
-// <ev>    = id.kind.serial.ts.in.drift.sd.pulser.out        (decimal; kind = one letter, see `banks`)
+// <ev>    = id.kind.vs.serial.ts.in.drift.sd.pulser.out     (decimal; kind = one letter, see `banks`;
+//           vs = two flags: decodable by vertices / by scalers, see `decodable`)
 use crate::util::*;
 use alpha_g_detector::trigger::TrgPacket;
 use alpha_g_physics::MainEvent;
@@ -58,9 +59,21 @@ pub fn show_run(fs: &[FileD]) -> String {
                 .evs
                 .iter()
                 .map(|e| {
+                    // the two flags say whether the vertices / the scalers binary can decode the event:
+                    // they follow from the kind by construction (see `banks`) and are what the model reads
                     format!(
-                        "{}.{}.{}.{}.{}.{}.{}.{}.{}",
-                        e.id, e.kind, e.serial, e.ts, e.inp, e.drift, e.sd, e.pulser, e.out
+                        "{}.{}.{}{}.{}.{}.{}.{}.{}.{}.{}",
+                        e.id,
+                        e.kind,
+                        decodable(e.kind).0 as u8,
+                        decodable(e.kind).1 as u8,
+                        e.serial,
+                        e.ts,
+                        e.inp,
+                        e.drift,
+                        e.sd,
+                        e.pulser,
+                        e.out
                     )
                 })
                 .collect();
@@ -82,19 +95,19 @@ pub fn parse_run(s: &str) -> Option<Vec<FileD>> {
         let mut v = Vec::new();
         for e in evs.split(';').filter(|x| !x.is_empty()) {
             let p: Vec<&str> = e.split('.').collect();
-            if p.len() != 9 {
+            if p.len() != 10 {
                 return None;
             }
             v.push(Ev {
                 id: p[0].parse().ok()?,
                 kind: p[1].chars().next()?,
-                serial: p[2].parse().ok()?,
-                ts: p[3].parse().ok()?,
-                inp: p[4].parse().ok()?,
-                drift: p[5].parse().ok()?,
-                sd: p[6].parse().ok()?,
-                pulser: p[7].parse().ok()?,
-                out: p[8].parse().ok()?,
+                serial: p[3].parse().ok()?,
+                ts: p[4].parse().ok()?,
+                inp: p[5].parse().ok()?,
+                drift: p[6].parse().ok()?,
+                sd: p[7].parse().ok()?,
+                pulser: p[8].parse().ok()?,
+                out: p[9].parse().ok()?,
             });
         }
         out.push(FileD {
@@ -157,6 +170,16 @@ fn words_bytes(w: &[u32]) -> Vec<u8> {
 ///   r  TRG bank with a reserved word set           m  no bank at all
 ///   t  only a TRBA bank (TRG missing)              d  two valid TRG banks
 ///   b  only a `CBF1` bank
+/// (decodable by alpha-g-vertices, decodable by alpha-g-trg-scalers) for an event built by `banks`:
+/// vertices needs every bank name known and exactly one valid TRG bank; scalers looks at `ATAT` banks only
+pub fn decodable(kind: char) -> (bool, bool) {
+    match kind {
+        'g' | 'j' => (true, true),
+        'u' | 'a' => (false, true),
+        _ => (false, false),
+    }
+}
+
 pub fn banks(e: &Ev) -> Vec<(&'static str, Vec<u8>)> {
     let good = words_bytes(&trg_words(e));
     let junk = |n: usize| -> Vec<u8> { (0..n).map(|i| (i as u8).wrapping_mul(37).wrapping_add(e.serial as u8)).collect() };
